@@ -673,6 +673,11 @@ func main() {
 		wg.Wait()
 		a.Stop()
 	}
+	// harness L: concurrent pairing administration against pair-verify, checked for linearizability
+	tl := time.Now()
+	linearRounds(r)
+	r.Extra("wall_s_harness_L", time.Since(tl).Seconds())
+
 	r.Floor("messages", int(r.Counter("messages")), 5000)
 	r.Floor("verified_by_genuine_finish", int(r.Counter("verified_by_genuine_finish")), 50)
 	r.Floor("forged_finishes_refused+violations", int(r.Counter("forged_finishes_refused"))+r.ViolationCount(), 1000)
